@@ -2,8 +2,8 @@
    protocol.  Theorems only.  In the model a parser instance IS its state value (four finite
    maps, kept as sorted duplicate-free association lists); parse_bytes is a function of
    (state, allowed set, bytes) and returns the state after every element. *)
-From NF Require Import Base Nom Types Layout Value V9 Ipfix Parser Inventory.
-From NF Require Import BaseFacts RunFacts CacheFacts.
+From NF Require Import Base Nom Types Layout Value V9 Ipfix Parser Export Inventory.
+From NF Require Import BaseFacts RunFacts CacheFacts OriginFacts.
 Open Scope list_scope.
 
 (* templates are never evicted: whatever garbage follows, an id that had a template in any of
@@ -92,3 +92,23 @@ Print Assumptions C06_split_independent.
 Theorem C06_no_shared_state : static_items = [].
 Proof. reflexivity. Qed.
 Print Assumptions C06_no_shared_state.
+
+(* the caches change only through template records contained in the input: after any call (and
+   whatever succeeded or failed in it) every entry of the four maps was there before the call or
+   its record -- id, count(s) and every field specifier, as re-exported -- occurs in the buffer.
+   Nothing is invented, defaulted or carried over from elsewhere. *)
+Theorem C06_entries_were_sent : forall puf allow s x r,
+  parse_bytes puf allow s x = Some r ->
+  let s' := final_state s r in
+  (forall k t, lookup k (v9_t (st9 s')) = Some t ->
+     lookup k (v9_t (st9 s)) = Some t \/ infix (export_template t) x) /\
+  (forall k t, lookup k (v9_o (st9 s')) = Some t ->
+     lookup k (v9_o (st9 s)) = Some t \/ infix (export_otemplate t) x) /\
+  (forall k t, lookup k (ix_t (stx s')) = Some t ->
+     lookup k (ix_t (stx s)) = Some t \/ exists b, export_ix_body (IxTemplate t) = XOk b /\ infix b x) /\
+  (forall k t, lookup k (ix_o (stx s')) = Some t ->
+     lookup k (ix_o (stx s)) = Some t \/ exists b, export_ix_body (IxOTemplate t) = XOk b /\ infix b x).
+Proof.
+  intros puf allow s x r H. apply run_from in H. destruct H as [[A1 A2] [B1 B2]]. cbv zeta. auto.
+Qed.
+Print Assumptions C06_entries_were_sent.
